@@ -290,6 +290,13 @@ func init() {
 		if pos == 1 {
 			return sv("k1", "k2", "zz", "a", "e\u0301", "\u00e9", "")
 		}
+		if pos == 2 {
+			// defaults of another primitive type than the map elements, convertible and not
+			return cat(dynDict(th), []cty.Value{S("5"), S("-12"), S("true"), cty.False, N(7)})
+		}
+		if pos == 0 {
+			return cat(dynDict(th), []cty.Value{mapOf(cty.Bool, "k1", cty.True), mapOf(cty.Number, "k1", N(3), "k2", N(4))})
+		}
 		return nil
 	})
 	add("merge", stdlib.MergeFunc, func(pos int, th bool) []cty.Value {
